@@ -36,7 +36,7 @@ OWNER = {
     "ota-reply-missing": "C10", "ota-reply-spurious": "C10", "ota-reply-wrong": "C10",
     "ota-malformed-changed-session": "C10", "ota-malformed-replied": "C10", "ota-request-raised": "C10", "reboot-missing": "C10",
     "reboot-spurious": "C10",
-    "ota-advertised-wrong": "C09", "ota-block-wrong": "C09",
+    "ota-advertised-wrong": "C09", "ota-block-wrong": "C09", "ota-block-missing": "C09",
     "restart-lost-state": "C14", "stop-raised": "C14", "load-raised": "C13",
     "roundtrip-mismatch": "C11", "transient-resurrected": "C11", "format-divergence": "C11",
 }
@@ -949,6 +949,8 @@ class NetRun:
                 want = hdr_payload + padded[idx * 16:(idx + 1) * 16].hex()
                 if not resp:
                     self.add(vio("ota-reply-missing", {"request": "block", "node": node, "blk": idx, "got": lines}, request="block"))
+                    # C09's side of the same event: a block of the advertised firmware, asked for by a node in a session, is not served
+                    self.add(vio("ota-block-missing", {"node": node, "blk": idx, "key": list(key), "got": lines, "state": self.model.ota.state.get(node)}))
                     return
                 got = resp[0].split(";", 5)[5]
                 if got.lower() != want.lower():
